@@ -548,7 +548,7 @@ impl<'a> TupleReader<'a> {
         let mut cursor = layout.delta_start();
 
         // Delta layout: [DeltaHeader][num_changes: u8][full_bitmap][changes...]
-        while cursor < data.len() {
+        while DeltaHeader::aligned_offset(cursor) + DeltaHeader::SIZE <= data.len() {
             let (delta_header, header_end) = DeltaHeader::read_from(data, cursor);
             cursor = header_end;
 
@@ -619,7 +619,7 @@ impl<'a> TupleReader<'a> {
         let bitmap_size = null_bitmap_size(num_values);
         let mut cursor = layout.delta_start();
 
-        while cursor < data.len() {
+        while DeltaHeader::aligned_offset(cursor) + DeltaHeader::SIZE <= data.len() {
             let (delta_header, header_end) = DeltaHeader::read_from(data, cursor);
             cursor = header_end;
 
@@ -1320,7 +1320,7 @@ impl Tuple {
         // the horizon; only the versions behind that one are garbage.
         let mut horizon_version_kept = layout.version_xmin() < oldest_active_xid;
 
-        while cursor < self.data.len() {
+        while DeltaHeader::aligned_offset(cursor) + DeltaHeader::SIZE <= self.data.len() {
             let (delta_header, header_end) =
                 DeltaHeader::read_from(self.data.effective_data(), cursor);
             let below_horizon = delta_header.xmin() < oldest_active_xid;
@@ -1401,7 +1401,7 @@ impl Tuple {
         let mut cursor = layout.delta_start();
         let mut count = 1;
 
-        while cursor < self.data.len() {
+        while DeltaHeader::aligned_offset(cursor) + DeltaHeader::SIZE <= self.data.len() {
             let (_, header_end) = DeltaHeader::read_from(self.data.effective_data(), cursor);
             let num_changes = self.data.effective_data()[header_end] as usize;
             cursor = header_end + 1 + bitmap_size;
